@@ -1,4 +1,5 @@
 import Scion.Model.Chain
+import Scion.Proofs.Chain
 /-!
 # C34 — Only properly formed chains rooted in an active TRC are trusted
 
@@ -7,13 +8,16 @@ Property theorems only.  The model (`Scion.Model.Chain`) is the decision logic o
 (`activeTRCs`, `filterVerifiableChains`, `GetChains`) over certificate *facts*; it is tied to the
 real functions by `harness/cmd/chain` on real certificates generated in-process.
 
-X.509 path validation is an oracle (`x509ok`).  What the statement of C34 needs from it is the
-hypothesis `X509Sound` below ("Go's `Verify` succeeded" implies: the AS certificate is signed by
-the CA certificate, the CA certificate by a root of the TRC, and all three are inside their
-validity at the verification time).  The harness evaluates exactly this implication on the real
-objects of every accepted case; it is **not** met by the code for AS certificates issued directly
-by a TRC root (finding `C34/accepted-not-issued-by-ca`): `verifyChain` passes `certs[1]` to
-`Verify` merely as an optional intermediate.
+Signature checking and X.509 path validation are oracles: `asByCa` ("`certs[0]` carries a valid
+signature of `certs[1]`'s key", `CheckSignatureFrom`) and `x509ok` (Go's `Verify`).  What the
+statement of C34 needs from the latter is the hypothesis `X509Sound` below ("`Verify` succeeded"
+implies: the CA certificate is signed by a root of the TRC, and AS, CA and that root certificate
+are inside their validity at the verification time).  The harness evaluates this implication,
+and the whole statement, on the real objects of every accepted case.
+
+History: before the repair of finding `C34/accepted-not-issued-by-ca`, `verifyChain` had no
+`asByCa` check and passed `certs[1]` to `Verify` merely as an optional intermediate, so an AS
+certificate issued directly by a TRC root was accepted next to any CA certificate.
 -/
 namespace Scion.C34
 open Scion.Chain
@@ -57,99 +61,32 @@ structure CAProfile (c : Cert) : Prop where
   /-- not one of the TRC certificate classes -/
   noScionEKU : classifyUeku c.ueku = none
 
-theorem isOk_iff (r : IARes) : r.isOk = true ↔ ∃ ia, r = .ok ia := by
-  cases r <;> simp [IARes.isOk]
-
-theorem mod2_ne_one (n : Nat) : (n % 2 == 1) = false ↔ n % 2 = 0 := by
-  rcases Nat.mod_two_eq_zero_or_one n with h | h <;> simp [h]
-
-theorem generalOk_iff (c : Cert) :
-    generalOk c = true ↔ c.version = 3 ∧ c.hasSerial = true ∧
-      (c.sigAlg = 10 ∨ c.sigAlg = 11 ∨ c.sigAlg = 12) ∧ c.skidEmpty = false ∧
-      c.skidExt ≠ some true ∧ c.akidExt ≠ some true := by
-  simp [generalOk, validSigAlgs, and_assoc]
-
 /-- `ValidateCert` says "AS certificate, valid" exactly for the AS profile -/
 theorem validateCert_as_iff (a : Cert) :
     validateCert (some a) = (.as, true) ↔ (classifyUeku a.ueku = none ∧ ASProfile a) := by
+  rw [validateCert_as, classify_as_iff, asOk_iff, generalOk_iff, iaSetOk_iff, certSign_false,
+    digSig_true]
   constructor
-  · intro h
-    unfold validateCert classify at h
-    split at h <;> try (simp at h)
-    all_goals (rename_i c hc; split at hc <;> try (simp at hc))
-    all_goals try (split at hc <;> simp at hc)
-    next heq hu =>
-      injection heq with heq; subst heq
-      rename_i hcs
-      split at hc
-      · simp at hc
-      · rename_i hds
-        have hd : digSig c = true ∧ certSign c = false := by simpa using hds
-        have ha : asOk c = true := by simpa using h
-        simp only [asOk, Bool.and_eq_true, Bool.not_eq_true', bne_iff_ne, ne_eq,
-          List.contains_iff_mem, iaSetOk, isOk_iff, generalOk_iff, ekuTimeStamping] at ha
-        obtain ⟨⟨⟨⟨⟨⟨g, _⟩, _⟩, nca⟩, ⟨i1, i2⟩⟩, ak⟩, ts⟩ := ha
-        obtain ⟨g1, g2, g3, g4, g5, g6⟩ := g
-        refine ⟨hu, ⟨g1, g2, g3, g4, g5, g6, ?_, ?_, ?_, i1, i2, ak, ts⟩⟩
-        · simpa [digSig] using hd.1
-        · have := hd.2; simp only [certSign] at this
-          rcases Nat.mod_two_eq_zero_or_one (c.keyUsage / 32) with h0 | h1
-          · exact h0
-          · simp [h1] at this
-        · simpa using nca
+  · rintro ⟨⟨hu, hcs, hds⟩, ⟨g1, g2, g3, g4, g5, g6⟩, _, _, nca, ⟨i1, i2⟩, ak, ts⟩
+    exact ⟨hu, ⟨g1, g2, g3, g4, g5, g6, hds, hcs, nca, i1, i2, ak, ts⟩⟩
   · rintro ⟨hu, p⟩
-    have hcs : certSign a = false := by simp [certSign, p.noCertSign]
-    have hds : digSig a = true := by simp [digSig, p.digitalSignature]
-    have hg : generalOk a = true := (generalOk_iff a).2
-      ⟨p.version, p.serial, p.sigAlg, p.skid, p.skidNotCritical, p.akidNotCritical⟩
-    have hi : iaSetOk a = true := by
-      simp [iaSetOk, isOk_iff, p.issuerIA, p.subjectIA]
-    have hn : (a.bcValid && a.isCA) = false := by
-      have := p.notCA
-      cases hb : a.bcValid <;> cases hc : a.isCA <;> simp_all
-    have hak : (a.akid != 0) = true := by simp [p.akid]
-    have hts : a.eku.contains ekuTimeStamping = true := by
-      simp [ekuTimeStamping, p.timeStamping]
-    simp [validateCert, classify, hu, hcs, hds, asOk, hg, hi, hn, hak, hts]
+    exact ⟨⟨hu, p.noCertSign, p.digitalSignature⟩,
+      ⟨p.version, p.serial, p.sigAlg, p.skid, p.skidNotCritical, p.akidNotCritical⟩,
+      p.noCertSign, p.digitalSignature, p.notCA, ⟨p.issuerIA, p.subjectIA⟩, p.akid, p.timeStamping⟩
 
 /-- `ValidateCert` says "CA certificate, valid" exactly for the CA profile -/
 theorem validateCert_ca_iff (c : Cert) :
     validateCert (some c) = (.ca, true) ↔ CAProfile c := by
+  rw [validateCert_ca, classify_ca_iff, caOk_iff, generalOk_iff, iaSetOk_iff, certSign_true,
+    digSig_false]
   constructor
-  · intro h
-    unfold validateCert classify at h
-    split at h <;> try (simp at h)
-    all_goals (rename_i c' hc; split at hc <;> try (simp at hc))
-    all_goals try (split at hc <;> simp at hc)
-    next heq hu =>
-      injection heq with heq; subst heq
-      split at hc
-      · rename_i hcs
-        have ha : caOk c' = true := by simpa using h
-        simp only [caOk, commonCAOk, Bool.and_eq_true, Bool.not_eq_true', bne_iff_ne, ne_eq,
-          List.contains_iff_mem, iaSetOk, isOk_iff, generalOk_iff, ekuClientAuth, ekuServerAuth,
-          beq_iff_eq] at ha
-        obtain ⟨⟨g, ⟨⟨⟨⟨⟨⟨cs, nd⟩, nc⟩, ns⟩, bcx⟩, ⟨⟨bv, ic⟩, pl⟩⟩, ⟨i1, i2⟩⟩⟩, ak⟩ := ha
-        obtain ⟨g1, g2, g3, g4, g5, g6⟩ := g
-        refine ⟨g1, g2, g3, g4, g5, g6, ?_, ?_, ?_, ?_, bcx, ⟨bv, ic⟩, pl, i1, i2, ak, hu⟩
-        · simpa [certSign] using cs
-        · exact (mod2_ne_one _).1 (by simpa [digSig] using nd)
-        · simpa using nc
-        · simpa using ns
-      · split at hc <;> simp at hc
+  · rintro ⟨⟨hu, hcs⟩, ⟨g1, g2, g3, g4, g5, g6⟩, _, nd, nc, ns, bcx, bv, ic, pl, ⟨i1, i2⟩, ak⟩
+    exact ⟨g1, g2, g3, g4, g5, g6, hcs, nd, nc, ns, bcx, ⟨bv, ic⟩, pl, i1, i2, ak, hu⟩
   · intro p
-    have hcs : certSign c = true := by simp [certSign, p.certSign]
-    have hds : digSig c = false := by simp [digSig, p.noDigitalSignature]
-    have hg : generalOk c = true := (generalOk_iff c).2
-      ⟨p.version, p.serial, p.sigAlg, p.skid, p.skidNotCritical, p.akidNotCritical⟩
-    have hi : iaSetOk c = true := by
-      simp [iaSetOk, isOk_iff, p.issuerIA, p.subjectIA]
-    have h1 : c.eku.contains ekuClientAuth = false := by simp [ekuClientAuth, p.noClientAuth]
-    have h2 : c.eku.contains ekuServerAuth = false := by simp [ekuServerAuth, p.noServerAuth]
-    have hbx : (c.bcExt != some false) = true := by simp [p.bcCritical]
-    have hak : (c.akid != 0) = true := by simp [p.akid]
-    simp [validateCert, classify, p.noScionEKU, hcs, caOk, commonCAOk, hg, hi, hds, h1, h2, hbx,
-      p.isCA.1, p.isCA.2, p.pathLen, hak]
+    exact ⟨⟨p.noScionEKU, p.certSign⟩,
+      ⟨p.version, p.serial, p.sigAlg, p.skid, p.skidNotCritical, p.akidNotCritical⟩,
+      p.certSign, p.noDigitalSignature, p.noClientAuth, p.noServerAuth, p.bcCritical, p.isCA.1,
+      p.isCA.2, p.pathLen, ⟨p.issuerIA, p.subjectIA⟩, p.akid⟩
 
 /-- **`ValidateChain` accepts exactly**: two certificates, a valid AS certificate followed by a
 valid CA certificate whose validity covers the AS certificate's. -/
@@ -200,13 +137,14 @@ theorem validateChain_length (certs : List (Option Cert)) (h : certs.length ≠ 
   | [_, _], h => exact absurd rfl h
   | _ :: _ :: _ :: _, _ => rfl
 
-/-- **`verifyChain` accepts iff** the chain validates, a (non-zero) TRC is given whose certificates
-all classify as voting/root certificates with at least one root, and X.509 path validation of
-the AS certificate through the CA certificate to the TRC's roots succeeds at the given time. -/
-theorem chain_accept_iff (certs : List (Option Cert)) (trc : TrcArg) (x : Bool) :
-    verifyChain certs trc x = .ok () ↔
+/-- **`verifyChain` accepts iff** the chain validates, a (non-zero) TRC is given, the AS
+certificate carries a valid signature of the CA certificate, the TRC's certificates all classify
+as voting/root certificates with at least one root, and X.509 path validation of the AS
+certificate through the CA certificate to the TRC's roots succeeds at the given time. -/
+theorem chain_accept_iff (certs : List (Option Cert)) (trc : TrcArg) (s x : Bool) :
+    verifyChain certs trc s x = .ok () ↔
       (∃ a c, validateChain certs = .ok (a, c)) ∧
-      (∃ tc, trc = .trc tc ∧ rootPoolOk tc = true) ∧ x = true := by
+      (∃ tc, trc = .trc tc ∧ rootPoolOk tc = true) ∧ s = true ∧ x = true := by
   unfold verifyChain
   split
   · simp_all
@@ -216,11 +154,11 @@ theorem chain_accept_iff (certs : List (Option Cert)) (trc : TrcArg) (x : Bool) 
     | nil => simp
     | zero => simp
     | trc tc =>
-      cases hr : rootPoolOk tc <;> cases x <;> simp [hp, hr]
+      cases hr : rootPoolOk tc <;> cases x <;> cases s <;> simp [hp, hr]
 
 /-- a chain is accepted by `VerifyChain` iff it is accepted against one of the listed TRCs -/
-theorem verifyAny_iff (certs : List (Option Cert)) (ts : List (TrcArg × Bool)) :
-    verifyAny certs ts = true ↔ ∃ p ∈ ts, verifyChain certs p.1 p.2 = .ok () := by
+theorem verifyAny_iff (certs : List (Option Cert)) (s : Bool) (ts : List (TrcArg × Bool)) :
+    verifyAny certs s ts = true ↔ ∃ p ∈ ts, verifyChain certs p.1 s p.2 = .ok () := by
   induction ts with
   | nil => simp [verifyAny]
   | cons p r ih =>
@@ -233,7 +171,7 @@ theorem verifyAny_iff (certs : List (Option Cert)) (ts : List (TrcArg × Bool)) 
       · rename_i u hu; cases u; simp [hu]
       · cases h
     · rename_i h
-      have hne : verifyChain certs t x ≠ .ok () := by
+      have hne : verifyChain certs t s x ≠ .ok () := by
         intro he; simp [verifyOk, he] at h
       simp [ih, hne]
 
@@ -247,40 +185,52 @@ theorem trcCertsOk_iff (tc : List (Option Cert)) :
   | nil => simp [trcCertsOk]
   | cons c r ih =>
     unfold trcCertsOk
-    split <;> simp_all
-    rename_i h1 h2 h3
-    intro h
-    rcases h with h | h | h
-    · exact h1 h
-    · exact h2 h
-    · exact h3 h
+    split
+    · rename_i h; simp [ih, h]
+    · rename_i h; simp [ih, h]
+    · rename_i h; simp [ih, h]
+    · rename_i h1 h2 h3
+      simp only [List.mem_cons, forall_eq_or_imp, Bool.false_eq_true, false_iff, not_and]
+      intro h
+      rcases h with h | h | h
+      · exact absurd h (h1)
+      · exact absurd h (h2)
+      · exact absurd h (h3)
 
 /-- What the property needs from Go's path validation (see the header). -/
 def X509Sound (a c : Cert) (f : X509Facts) (t : Int) (x : Bool) : Prop :=
   x = true → x509Necessary a c f t = true
 
 /-- **C34, first sentence.**  If `verifyChain` accepts and path validation is sound, then the
-chain is an AS certificate followed by the CA certificate that issued it, both in the SCION
+chain is an AS certificate followed by the CA certificate that issued it (`s`), both in the SCION
 profile (key usages, constraints, ISD-AS attributes), the CA validity covers the AS validity,
 and the CA certificate is signed by a root certificate of that TRC which — like the CA and AS
 certificates — is valid at the verification time. -/
-theorem chain_accept_statement (certs : List (Option Cert)) (trc : TrcArg) (x : Bool)
+theorem chain_accept_statement (certs : List (Option Cert)) (trc : TrcArg) (s x : Bool)
     (f : X509Facts) (t : Int)
     (hsound : ∀ a c, validateChain certs = .ok (a, c) → X509Sound a c f t x)
-    (h : verifyChain certs trc x = .ok ()) :
+    (h : verifyChain certs trc s x = .ok ()) :
     ∃ a c, certs = [some a, some c] ∧ ASProfile a ∧ CAProfile c ∧
       c.notBefore ≤ a.notBefore ∧ a.notAfter ≤ c.notAfter ∧
-      f.asByCa = true ∧
+      s = true ∧
       (a.notBefore ≤ t ∧ t ≤ a.notAfter) ∧ (c.notBefore ≤ t ∧ t ≤ c.notAfter) ∧
       (∃ tc, trc = .trc tc ∧ rootPoolOk tc = true) ∧
       ∃ r ∈ f.roots, r.1 = true ∧ r.2.1 ≤ t ∧ t ≤ r.2.2 := by
-  obtain ⟨⟨a, c, hv⟩, htrc, hx⟩ := (chain_accept_iff certs trc x).1 h
+  obtain ⟨⟨a, c, hv⟩, htrc, hs, hx⟩ := (chain_accept_iff certs trc s x).1 h
   have hn := hsound a c hv hx
   obtain ⟨hc, ha, hca, hb, hna⟩ := (validateChain_ok_iff certs a c).1 hv
   simp only [x509Necessary, contains, Bool.and_eq_true, decide_eq_true_eq, List.any_eq_true] at hn
-  obtain ⟨⟨⟨h1, h2⟩, h3⟩, r, hr, h4⟩ := hn
-  exact ⟨a, c, hc, ((validateCert_as_iff a).1 ha).2, (validateCert_ca_iff c).1 hca, hb, hna, h1,
+  obtain ⟨⟨h2, h3⟩, r, hr, h4⟩ := hn
+  exact ⟨a, c, hc, ((validateCert_as_iff a).1 ha).2, (validateCert_ca_iff c).1 hca, hb, hna, hs,
     h2, h3, htrc, r, hr, h4.1, h4.2.1, h4.2.2⟩
+
+/-- a chain whose first certificate was not signed by its second certificate is never accepted,
+whatever path validation says (the repaired defect) -/
+theorem not_issued_by_ca_rejected (certs : List (Option Cert)) (trc : TrcArg) (x : Bool) :
+    verifyChain certs trc false x ≠ .ok () := by
+  intro h
+  have := (chain_accept_iff certs trc false x).1 h
+  simp at this
 
 /-! ## Second sentence: which TRCs the provider uses, and which chains it hands out -/
 
@@ -291,6 +241,15 @@ theorem inGrace_iff (t : TrcInfo) (now : Int) :
     t.inGrace now = true ↔ t.base ≠ t.serial ∧ t.notBefore ≤ now ∧ now ≤ t.notBefore + t.grace := by
   unfold TrcInfo.inGrace TrcInfo.isBase
   by_cases h : t.base = t.serial <;> simp [h, contains]
+
+theorem newer_irrefl (t : TrcInfo) : newer t t = false := by simp [newer]
+
+theorem newer_trans' (u t m : TrcInfo) (h1 : newer t m = true) (h2 : newer u m = false) :
+    newer u t = false := by
+  simp only [newer, Bool.or_eq_true, decide_eq_true_eq, Bool.and_eq_true, beq_iff_eq,
+    Bool.or_eq_false_iff, decide_eq_false_iff_not, Bool.and_eq_false_iff, beq_eq_false_iff_ne,
+    ne_eq] at *
+  omega
 
 /-- the DB's "latest" is an element of the store that no other element is newer than -/
 theorem latest_is_max (s : Store) (m : TrcInfo) (h : s.latest = some m) :
@@ -303,8 +262,13 @@ theorem latest_is_max (s : Store) (m : TrcInfo) (h : s.latest = some m) :
     · rename_i hr
       injection h with h; subst h
       cases r with
-      | nil => simp [newer]
-      | cons u r' => simp [Store.latest] at hr; split at hr <;> simp at hr
+      | nil => simp [newer_irrefl]
+      | cons u r' =>
+        exfalso
+        unfold Store.latest at hr
+        split at hr
+        · cases hr
+        · split at hr <;> cases hr
     · rename_i m' hr
       obtain ⟨hm, hall⟩ := ih m' hr
       split at h
@@ -313,11 +277,8 @@ theorem latest_is_max (s : Store) (m : TrcInfo) (h : s.latest = some m) :
         refine ⟨by simp, ?_⟩
         intro u hu
         rcases List.mem_cons.1 hu with rfl | hu
-        · simp [newer]
-        · have := hall u hu
-          simp only [newer, Bool.or_eq_true, decide_eq_true_eq, Bool.and_eq_true, beq_iff_eq,
-            Bool.or_eq_false_iff, decide_eq_false_iff_not, Bool.and_eq_false_iff] at *
-          omega
+        · exact newer_irrefl _
+        · exact newer_trans' u t m' hn (hall u hu)
       · rename_i hn
         injection h with h; subst h
         refine ⟨by simp [hm], ?_⟩
@@ -396,34 +357,37 @@ theorem filterVerifiable_mem (n : Nat) (chains : List Nat) (ok : Nat → Nat →
 /-- **C34, second sentence (hand-out).**  Without the explicit `AllowInactive` opt-out, every
 chain `GetChains` hands out (from the DB or freshly fetched) verifies against one of the
 selected TRCs. -/
+theorem getChainsActive_mem (i : GetIn) (chains : List Nat) (n : Nat) (l : List Nat)
+    (h : getChainsActive i chains n = .ok l) : ∀ c ∈ l, ∃ k, k < n ∧ i.ok c k = true := by
+  intro c hc
+  unfold getChainsActive at h
+  split at h
+  · injection h with h; subst h
+    exact (filterVerifiable_mem _ _ _ c hc).2
+  · split at h
+    · cases h
+    · split at h
+      · cases h
+      · split at h
+        · cases h
+        · injection h with h; subst h
+          exact (filterVerifiable_mem _ _ _ c hc).2
+
 theorem provider_hands_out_only_verifiable (i : GetIn) (l : List Nat)
     (hai : i.allowInactive = false) (h : getChains i = .ok l) :
     ∀ c ∈ l, ∃ k, k < i.active.trcs.length ∧ i.ok c k = true := by
-  intro c hc
   unfold getChains at h
   split at h
   · cases h
   · split at h
     · cases h
-    · rename_i chains
-      simp only [hai, Bool.false_and] at h
+    · rename_i chains _
+      simp only [hai, Bool.false_and, Bool.false_eq_true, if_false] at h
       split at h
       · cases h
       · cases h
       · cases h
-      · rename_i act _ _ _
-        unfold getChainsActive at h
-        split at h
-        · injection h with h; subst h
-          exact (filterVerifiable_mem _ _ _ c hc).2
-        · split at h
-          · cases h
-          · split at h
-            · cases h
-            · split at h
-              · cases h
-              · injection h with h; subst h
-                exact (filterVerifiable_mem _ _ _ c hc).2
+      · exact getChainsActive_mem i chains _ l h
 
 /-- hence a chain is handed out only if it verifies against the latest TRC while that TRC is
 valid, or against the predecessor inside the latest TRC's grace period -/
@@ -470,7 +434,7 @@ theorem provider_chain_rule (i : GetIn) (latest pred : Lookup) (now : Int) (l : 
             · cases hres
             · cases hres
             · rename_i g' ; injection hres with h1 h2; subst h2
-              exact ⟨by assumption, hg'⟩
+              exact ⟨rfl, hg'⟩
       exact ⟨L, hL, hv, Or.inr ⟨hok, ⟨g, hg.1⟩, hg.2⟩⟩
 
 /-! ## Non-vacuity -/
@@ -493,12 +457,16 @@ def exRoot : Cert :=
   { exCA with akid := 2, keyUsage := 96, eku := [8], ueku := [3], maxPathLen := 1,
               notBefore := -36000, notAfter := 36000, keyId := 1 }
 
-example : verifyChain [some exAS, some exCA] (.trc [some exRoot]) true = .ok () := by decide
-example : verifyChain [some exAS, some exCA] (.trc [some exRoot]) false = .error .x509 := by decide
-example : verifyChain [some exCA, some exAS] (.trc [some exRoot]) true = .error (.chain .firstType) := by
-  decide
-example : verifyChain [some exAS, some exCA] (.trc [some exCA]) true = .error .rootPool := by decide
-example : X509Sound exAS exCA ⟨true, [(true, -36000, 36000)]⟩ 0 true := by decide
+example : verifyChain [some exAS, some exCA] (.trc [some exRoot]) true true = .ok () := by rfl
+example : verifyChain [some exAS, some exCA] (.trc [some exRoot]) true false = .error .x509 := by
+  rfl
+example : verifyChain [some exAS, some exCA] (.trc [some exRoot]) false true =
+    .error .notIssuedByCA := by rfl
+example : verifyChain [some exCA, some exAS] (.trc [some exRoot]) true true =
+    .error (.chain .firstType) := by rfl
+example : verifyChain [some exAS, some exCA] (.trc [some exCA]) true true = .error .rootPool := by
+  rfl
+example : X509Sound exAS exCA ⟨[(true, -36000, 36000)]⟩ 0 true := fun _ => by decide
 
 /-- a store with an update in its grace period selects both TRCs; after the grace period only
 the latest -/
